@@ -58,6 +58,11 @@ def words : WOp → List String
   | .sDrop s => ["s_drop", "s" ++ toString s]
   | .readNIov v c a src sc => ["read_n", "v" ++ toString v, toString c, toString a, toHex src, scriptStr sc]
   | .readNArena v c a src sc => ["read_n", "a" ++ toString v, toString c, toString a, toHex src, scriptStr sc]
+  -- the three `glue` constructors are not op words of the line protocol (the driver answers `bad-op`);
+  -- they are related to the op words in `Proofs/IovecGlue.lean` (`wop_push_split`, ...), not here
+  | .lend bs => ["(lend)", toHex bs]
+  | .pushAt v b off len => ["(push_at)", "v" ++ toString v, toString b, toString off, toString len]
+  | .pushBorrowedAt v b off len => ["(push_borrowed_at)", "v" ++ toString v, toString b, toString off, toString len]
 
 /-- Run a history on both sides; `true` iff after every op either both sides have no successor (driver:
 `panic` / `bad-op`; `World.step`: `none`) or both have one and the driver's `describe` of the two worlds
